@@ -40,6 +40,169 @@ def _bound_names(fn):
     return out
 
 
+def _const_rank(e):
+    """How constant-like an operand of == is: 2 literal, 1 an enum-like
+    attribute chain (TrapCode.X, Op.JZ, expr.Type.INTEGER: a chain with a
+    capitalised component) or a tuple/list of such, 0 anything else."""
+    if isinstance(e, ast.Constant):
+        return 2
+    if isinstance(e, ast.UnaryOp) and isinstance(e.operand, ast.Constant):
+        return 2
+    if isinstance(e, ast.Attribute):
+        parts = []
+        x = e
+        while isinstance(x, ast.Attribute):
+            parts.append(x.attr)
+            x = x.value
+        if isinstance(x, ast.Name):
+            parts.append(x.id)
+            if any(p[:1].isupper() for p in parts) and \
+                    parts[-1] not in ('self', 'cls'):
+                return 1
+    return 0
+
+
+def normalise_compares(tree):
+    """Normalisation: `CONST == x` / `CONST != x` are rewritten to
+    `x == CONST` / `x != CONST` (the operands of a single ==/!= are
+    swapped when the left one is more constant-like than the right one), so
+    that no rule depends on the orientation of an equality test.  Applied
+    identically to every analysed tree and to every rule pattern."""
+    for n in ast.walk(tree):
+        if isinstance(n, ast.Compare) and len(n.ops) == 1 and \
+                isinstance(n.ops[0], (ast.Eq, ast.NotEq)) and \
+                _const_rank(n.left) > _const_rank(n.comparators[0]):
+            n.left, n.comparators[0] = n.comparators[0], n.left
+    return tree
+
+
+def inline_single_use_temps(tree, whole=False):
+    """Normalisation: `t = <call>` immediately followed by a statement
+    that is the only user of `t` (one Load, `t` stored nowhere else in the
+    function, the use not inside a nested function/loop/comprehension of
+    that statement) is folded back into the use.  Evaluation order is
+    unchanged when everything evaluated before the use in that statement is
+    a plain name, attribute or constant; only those sites are folded."""
+    def pure(e):
+        return all(isinstance(x, (ast.Name, ast.Attribute, ast.Constant,
+                                  ast.Load, ast.Store))
+                   for x in ast.walk(e))
+
+    fns = [n for n in ast.walk(tree)
+           if isinstance(n, (ast.FunctionDef, ast.AsyncFunctionDef))]
+    if whole:
+        fns = [tree]
+    for fn in fns:
+        stores, loads = {}, {}
+        for x in ast.walk(fn):
+            if isinstance(x, ast.Name):
+                d = stores if isinstance(x.ctx, (ast.Store, ast.Del)) \
+                    else loads
+                d[x.id] = d.get(x.id, 0) + 1
+        params = _bound_names(fn) if not whole else set()
+        for holder in list(ast.walk(fn)):
+            for fld in ('body', 'orelse', 'finalbody'):
+                body = getattr(holder, fld, None)
+                if not (isinstance(body, list) and body and
+                        isinstance(body[0], ast.stmt)):
+                    continue
+                i = 0
+                while i + 1 < len(body):
+                    st, nxt = body[i], body[i + 1]
+                    ok = isinstance(st, ast.Assign) and \
+                        len(st.targets) == 1 and \
+                        isinstance(st.targets[0], ast.Name) and \
+                        isinstance(st.value, ast.Call)
+                    if ok:
+                        t = st.targets[0].id
+                        ok = stores.get(t) == 1 and loads.get(t) == 1 and \
+                            t not in params
+                    if ok and isinstance(nxt, (ast.Expr, ast.Assign,
+                                               ast.Return)) and \
+                            isinstance(getattr(nxt, 'value', None),
+                                       ast.Call):
+                        call = nxt.value
+                        pos = None
+                        if pure(call.func):
+                            for k, a in enumerate(call.args):
+                                if isinstance(a, ast.Name) and a.id == t:
+                                    pos = k
+                                    break
+                                if not pure(a):
+                                    break
+                        if pos is not None:
+                            call.args[pos] = st.value
+                            del body[i]
+                            continue
+                    i += 1
+    return tree
+
+
+def normalise_if_not(tree):
+    """Normalisation: a two-armed `if not c: A else: B` (no elif chain)
+    becomes `if c: B else: A`, and `x if not c else y` becomes
+    `y if c else x`, so that no rule depends on which arm is written
+    first."""
+    for n in ast.walk(tree):
+        if isinstance(n, ast.If) and n.orelse and \
+                isinstance(n.test, ast.UnaryOp) and \
+                isinstance(n.test.op, ast.Not) and \
+                not (len(n.orelse) == 1 and isinstance(n.orelse[0], ast.If)):
+            n.test = n.test.operand
+            n.body, n.orelse = n.orelse, n.body
+        elif isinstance(n, ast.IfExp) and isinstance(n.test, ast.UnaryOp) \
+                and isinstance(n.test.op, ast.Not):
+            n.test = n.test.operand
+            n.body, n.orelse = n.orelse, n.body
+    return tree
+
+
+def normalise_augassign(tree):
+    """Normalisation: `x = x + e` / `x = x - e` / `x = x * e` (same plain
+    name or attribute chain on both sides, e not a list display) becomes
+    `x += e` etc., so that no rule depends on which of the two spellings a
+    counter update uses."""
+    class T(ast.NodeTransformer):
+        def visit_Assign(self, node):
+            self.generic_visit(node)
+            v = node.value
+            if len(node.targets) == 1 and isinstance(v, ast.BinOp) and \
+                    isinstance(v.op, (ast.Add, ast.Sub, ast.Mult)) and \
+                    isinstance(node.targets[0], (ast.Name, ast.Attribute)) \
+                    and isinstance(v.left, (ast.Name, ast.Attribute)) and \
+                    ast.dump(_strip(node.targets[0])) == \
+                    ast.dump(_strip(v.left)) and not any(
+                        isinstance(x, (ast.List, ast.ListComp, ast.Dict,
+                                       ast.Set))
+                        for x in ast.walk(v.right)):
+                return ast.copy_location(ast.AugAssign(
+                    target=node.targets[0], op=v.op, value=v.right), node)
+            return node
+
+    def _strip(e):
+        e2 = ast.parse(ast.unparse(e), mode='eval').body
+        return e2
+    T().visit(tree)
+    ast.fix_missing_locations(tree)
+    return tree
+
+
+def normalise_tree(tree, whole=False, temps=True):
+    """All normalisations, in the one order used everywhere (repository
+    modules, rule patterns, frozen expectation texts).  Rule patterns are
+    written in normal form as far as temporaries are concerned (temps=False:
+    whether a temporary can be folded depends on the whole function, which a
+    pattern does not show)."""
+    if not whole:
+        inline_aliases(tree)
+    if temps:
+        inline_single_use_temps(tree, whole=whole)
+    normalise_compares(tree)
+    normalise_if_not(tree)
+    normalise_augassign(tree)
+    return tree
+
+
 def inline_aliases(tree):
     """Normalisation: inside every function, a local that is assigned
     exactly once from a pure name/attribute chain (`Operator =
@@ -195,7 +358,7 @@ class Module:
             self.tree = ast.parse(source, filename=str(path))
         except SyntaxError as e:
             raise AnalysisError(f'cannot parse {relpath}: {e}')
-        inline_aliases(self.tree)
+        normalise_tree(self.tree)
         for node in ast.walk(self.tree):
             for child in ast.iter_child_nodes(node):
                 child._parent = node
